@@ -644,6 +644,24 @@ func Catalogue(prop, tier string) []Cfg {
 					c.Mode, c.Tail = "flush", 2*tc.t+3
 					add(c)
 				}
+				// a size-triggered pass puts the timeout base off the tick grid, then a straggler:
+				// with a fine inaccuracy the bound is tight (Timeout*1.1, Timeout*1.05)
+				for _, tc := range []struct {
+					t     int64
+					inacc uint
+				}{{10, 10}, {20, 5}} {
+					if quick && tc.t == 20 && disc != "join1" {
+						continue
+					}
+					for _, nocopy := range []bool{false, true} {
+						c = jc(disc, 2, nocopy, 1, 3, tc.t, tc.inacc, []int64{0, 1, 2}, []int64{0}, []int64{0})
+						c.Mode, c.Tail = "flush", 2*tc.t+3
+						if disc == "unite2" {
+							c.Lens = []int{1}
+						}
+						add(c)
+					}
+				}
 				if !quick {
 					for _, nocopy := range []bool{false, true} {
 						c = jc(disc, 4, nocopy, 2, 6, 8, 25, []int64{0, 1, 3, 9}, []int64{0}, []int64{0})
@@ -926,6 +944,11 @@ func Catalogue(prop, tier string) []Cfg {
 					add(j)
 					j.Timeout, j.Pauses, j.Delays = 4, []int64{0, 5}, []int64{0, 5}
 					add(j)
+					if nocopy && mode == "" {
+						// the consumer holds the slice for a while before it signals the release
+						j.Timeout, j.Pauses, j.Delays, j.Retain = 0, nil, nil, []int64{0, 5}
+						add(j)
+					}
 				}
 			}
 		}
